@@ -33,6 +33,7 @@ func plan(tier string, seed uint64) []run {
 			{"two users, full alphabet", Params{Seed: seed, Kinds: full}, 3, 10 * time.Minute},
 			{"an operation pending on a loaded bug across pulls (A stage/comment/pull, B comment/push)", Params{Seed: seed, Kinds: "stage,comment,pull", KindsB: "comment,push"}, 5, 3 * time.Minute},
 			{"one user, several labels per bug, labels shared between two bugs (add/remove over {alpha,beta,gamma})", Params{Seed: seed, Kinds: strings.Join(LabelKinds, ","), Users: "A"}, 5, 5 * time.Minute},
+			{"one user, operations pending on two loaded bugs at once while the two-slot sub-cache is full (stage on first/last, new, resolve, commit)", Params{Seed: seed, Kinds: "stage,stagelast,new,comment,commentlast,resolveall", Users: "A"}, 4, 5 * time.Minute},
 		}
 	}
 	return []run{
@@ -41,6 +42,7 @@ func plan(tier string, seed uint64) []run {
 		{"two users, full alphabet", Params{Seed: seed, Kinds: full}, 4, 25 * time.Minute},
 		{"an operation pending on a loaded bug across pulls (A stage/comment/pull, B comment/push)", Params{Seed: seed, Kinds: "stage,comment,pull", KindsB: "comment,push"}, 7, 10 * time.Minute},
 		{"one user, several labels per bug, labels shared between two bugs (add/remove over {alpha,beta,gamma})", Params{Seed: seed, Kinds: strings.Join(LabelKinds, ","), Users: "A"}, 6, 10 * time.Minute},
+		{"one user, operations pending on two loaded bugs at once while the two-slot sub-cache is full (stage on first/last, new, resolve, commit)", Params{Seed: seed, Kinds: "stage,stagelast,new,comment,commentlast,resolveall", Users: "A"}, 7, 10 * time.Minute},
 	}
 }
 
